@@ -17,7 +17,10 @@ char const* const kRule
     = "problem as for C01, first run with ample storage, then re-run (a) "
       "with the secondary stack capacity set to each value of a generated "
       "set from {1..8} (capacity = slots x factor) and (b) with a track "
-      "initializer capacity from {1..16}; oracle: (a) the event still "
+      "initializer capacity from {1..16} or aimed at the queue peak observed "
+      "in the ample run (70 % of the cases use 1-6 track slots), optionally "
+      "with a second batch of primaries inserted while the event is in "
+      "flight; oracle: (a) the event still "
       "completes and the C01 energy ledger holds exactly, a step whose "
       "post-step action is physics-failure creates no secondary and leaves "
       "position/energy untouched; (b) an 'insufficient capacity' RuntimeError "
@@ -47,7 +50,11 @@ Verdict run_case(Choices& c, CaseLog& log)
     GenOptions opt;
     opt.max_primary_energy = 20;
     Problem base;
-    Verdict v = setup_problem(c, log, opt, base);
+    // most cases use few track slots so that initializers actually queue up
+    Verdict v = setup_problem(c, log, opt, base, {}, {}, [](SimSpec& s) {
+        if (s.track_slots % 10 < 7)
+            s.track_slots = 1 + s.track_slots % 6;
+    });
     if (v != Verdict::pass)
         return v;
     v = run_all_events(base, log, 20000);
@@ -199,10 +206,40 @@ Verdict run_case(Choices& c, CaseLog& log)
     }
 
     // ---- (b) initializer starvation ---------------------------------------
-    int cap = int(c.int_in(1, 16));
+    // capacity aimed at the need observed in the ample run: the largest
+    // number of pending initializers (end-of-step `queued`) and the largest
+    // batch of primaries
+    long peak = 0, nprim = 0;
+    for (auto const& rr : base.runs)
+        for (auto const& res : rr.results)
+            peak = std::max<long>(peak, long(res.queued));
+    for (auto const& ev : base.spec.events)
+        nprim = std::max<long>(nprim, long(ev.size()));
+    int cap;
+    int how = int(c.pick({3, 4, 2}));
+    if (how == 1 && peak > nprim)
+    {
+        // primaries fit, the queue overflows in flight
+        cap = int(nprim + c.int_in(0, peak - nprim - 1));
+        log.label("capacity-between-primaries-and-peak");
+    }
+    else if (how == 2 && peak >= 1)
+    {
+        cap = int(std::max<long>(1, peak - c.int_in(0, 1)));  // at the edge
+        log.label("capacity-at-peak");
+    }
+    else
+        cap = int(c.int_in(1, 16));
     log.mix(cap);
     log.d("initializer_capacity", cap);
+    log.d("observed_peak_queue", peak);
     log.label("starve-initializers");
+    // optional second batch of primaries inserted while the event is in
+    // flight (pending + new must fit, or the error must come BEFORE anything
+    // is written)
+    bool inject = c.boolean(0.4);
+    long inject_after = long(c.int_in(1, 4));
+    log.mix(int(inject) * 8 + int(inject_after));
     SimSpec s = base.spec;
     s.init_capacity = cap;
     std::unique_ptr<World> w;
@@ -223,7 +260,13 @@ Verdict run_case(Choices& c, CaseLog& log)
     for (size_t e = 0; e < s.events.size() && !thrown; ++e)
     {
         auto prim = make_primaries(*w, s.events[e], int(e));
-        RunResult r = run_event(*w, step, prim, unsigned(e), 60000);
+        std::vector<Primary> prim2;
+        if (inject)
+            prim2 = make_primaries(*w, s.events[(e + 1) % s.events.size()], int(e));
+        RunResult r = run_event(*w, step, prim, unsigned(e), 60000,
+                                inject ? &prim2 : nullptr, inject_after);
+        if (r.injected)
+            log.label("second-batch-in-flight");
         if (r.error.find("insufficient") != std::string::npos)
         {
             thrown = true;
